@@ -186,6 +186,23 @@ fn yuv_source_checks<T: Pixel>(ctx: &Ctx, idx: u64, w: usize, h: usize, ss: (u8,
             break;
         }
     }
+    // 4:4:4: the same samples in reversed raster order must decode to the reversed image
+    if ss == (0, 0) {
+        let rimg: Img<T> = Img {
+            w,
+            h,
+            ss,
+            planes: [img.planes[0].iter().rev().copied().collect(), img.planes[1].iter().rev().copied().collect(), img.planes[2].iter().rev().copied().collect()],
+            _t: std::marker::PhantomData,
+        };
+        if let Ok(rr) = Rgb::try_from(&build_yuv(&rimg, PADS[(idx % 7) as usize], &mut junk, cfg)) {
+            cnt.layout_checks.fetch_add(1, Relaxed);
+            let n = w * h;
+            if let Some(i) = (0..n).find(|&i| (0..3).any(|c| rr.data()[n - 1 - i][c].to_bits() != rgb.data()[i][c].to_bits())) {
+                viol("position-dependent|Rgb::try_from(&Yuv)", format!("pixel {i} of the {w}x{h} image decodes differently when the raster order is reversed"), case());
+            }
+        }
+    }
     // pointwise: pixel (x,y) equals the decode of the 1x1 4:4:4 image (Y(x,y), U(x>>ssx,y>>ssy), V(..))
     let cfg1 = YuvConfig { subsampling_x: 0, subsampling_y: 0, ..cfg };
     let lin = LinearRgb::try_from(&y0);
@@ -371,6 +388,27 @@ fn float_checks(ctx: &Ctx, idx: u64, w: usize, h: usize, cnt: &Counters) {
             cnt.layout_checks.fetch_add(1, Relaxed);
             if let Some(i) = bits_eq(&out, &row) {
                 viol(&format!("shape-dependent|{name}"), format!("pixel {i} of the {w}x{h} image differs from the same data converted as {n}x1"), case().set("conversion", *name));
+            }
+        }
+        // the same pixels in reversed order and rotated by 1 and by 5 positions: pixel i must not care where it sits
+        let mut rev = input.clone();
+        rev.reverse();
+        if let Some((o, _, _)) = f(rev, w, h) {
+            cnt.layout_checks.fetch_add(1, Relaxed);
+            if let Some(i) = (0..n).find(|&i| (0..3).any(|c| o[n - 1 - i][c].to_bits() != out[i][c].to_bits())) {
+                viol(&format!("position-dependent|{name}"), format!("pixel {i} of the {w}x{h} image converts differently when the pixel order is reversed (then at index {})", n - 1 - i), case().set("conversion", *name));
+            }
+        }
+        for k in [1usize, 5] {
+            if n > k {
+                let mut rot = input.clone();
+                rot.rotate_left(k);
+                if let Some((o, _, _)) = f(rot, w, h) {
+                    cnt.layout_checks.fetch_add(1, Relaxed);
+                    if let Some(i) = (0..n).find(|&i| (0..3).any(|c| o[(i + n - k) % n][c].to_bits() != out[i][c].to_bits())) {
+                        viol(&format!("position-dependent|{name}"), format!("pixel {i} of the {w}x{h} image converts differently when the image is rotated by {k} pixels"), case().set("conversion", *name));
+                    }
+                }
             }
         }
         if let Some((again, _, _)) = f(input.clone(), w, h) {
